@@ -51,6 +51,7 @@ type scenCfg struct {
 	CurvesS     []int    `json:"curvesS"`
 	Resume      bool     `json:"resume"`   // both session stores pre-populated with the same session
 	Stores      bool     `json:"stores"`   // session stores present (empty unless Resume)
+	NoPSKHint   bool     `json:"noPskHint"` // PSK server without identity hint
 	LeafOnly    bool     `json:"leafOnly"` // certificate messages carry the leaf only (the verifier builds the rest of the chain from its pool)
 	StaleC      bool     `json:"staleC"`   // stores present, only the CLIENT's holds a session: it offers an id the server does not know
 	Window      int      `json:"window"`
@@ -388,7 +389,10 @@ func (s *scenCfg) buildOptions(st *scenStores) ([]ClientOption, []ServerOption) 
 	case "psk", "ecdhepsk":
 		kc, ks := []byte(s.PSKc), []byte(s.PSKs)
 		co = append(co, WithPSK(func([]byte) ([]byte, error) { return kc, nil }), WithPSKIdentityHint([]byte("lab-client")))
-		so = append(so, WithPSK(func([]byte) ([]byte, error) { return ks, nil }), WithPSKIdentityHint([]byte("lab-server")))
+		so = append(so, WithPSK(func([]byte) ([]byte, error) { return ks, nil }))
+		if !s.NoPSKHint {
+			so = append(so, WithPSKIdentityHint([]byte("lab-server")))
+		}
 	case "rsa":
 		so = append(so, WithCertificates(leafOnly(p.serverRSA, s.LeafOnly)))
 	default:
